@@ -47,6 +47,7 @@ func roleOf(q, honest *dns.Msg) string {
 }
 
 var evilIP = net.IPv4(10, 66, 6, 6).To4()
+var evilGlue = net.IPv4(192, 0, 2, 254).To4()
 
 // isEvil recognises data only a tamper can have produced.
 func isEvil(rr dns.RR) bool {
@@ -529,14 +530,14 @@ var kinds = []*tamperKind{
 	{Name: "inject-authority", ZoneRoles: []string{roleAnswer, roleNegative}, ParentRoles: []string{roleReferral}, Needs: func(c *caseCtx, q QuerySpec) bool { return c.other != nil },
 		Apply: func(c *caseCtx, q, m *dns.Msg, role string, atParent bool) bool {
 			m.Ns = append(m.Ns, &dns.NS{Hdr: dns.RR_Header{Name: c.other.Apex(), Rrtype: dns.TypeNS, Class: dns.ClassINET, Ttl: 3600}, Ns: "ns.evil." + c.other.Apex()})
-			m.Extra = append([]dns.RR{&dns.A{Hdr: dns.RR_Header{Name: "ns.evil." + c.other.Apex(), Rrtype: dns.TypeA, Class: dns.ClassINET, Ttl: 3600}, A: net.IPv4(192, 0, 2, 254).To4()}}, m.Extra...)
+			m.Extra = append([]dns.RR{&dns.A{Hdr: dns.RR_Header{Name: "ns.evil." + c.other.Apex(), Rrtype: dns.TypeA, Class: dns.ClassINET, Ttl: 3600}, A: evilGlue}}, m.Extra...)
 			return true
 		}},
 	{Name: "inject-additional", ZoneRoles: []string{roleAnswer, roleNegative}, ParentRoles: []string{roleReferral}, Needs: func(c *caseCtx, q QuerySpec) bool { return c.other != nil },
 		Apply: func(c *caseCtx, q, m *dns.Msg, role string, atParent bool) bool {
 			m.Extra = append([]dns.RR{
 				&dns.A{Hdr: dns.RR_Header{Name: "www." + c.other.Apex(), Rrtype: dns.TypeA, Class: dns.ClassINET, Ttl: 3600}, A: evilIP},
-				&dns.A{Hdr: dns.RR_Header{Name: "ns1." + c.other.Apex(), Rrtype: dns.TypeA, Class: dns.ClassINET, Ttl: 3600}, A: net.IPv4(192, 0, 2, 254).To4()},
+				&dns.A{Hdr: dns.RR_Header{Name: "ns1." + c.other.Apex(), Rrtype: dns.TypeA, Class: dns.ClassINET, Ttl: 3600}, A: evilGlue},
 			}, m.Extra...)
 			return true
 		}},
